@@ -769,6 +769,18 @@ def cases_c13(rng, thorough):
                     cases.append(mux_case(pipe, G.schedule(rng, lts)))
                     cases.append(src_case(pipe, G.ints([rng.choice([1, 2, 3])
                                                        for _ in range(rng.randint(0, 7))])))
+    # the handler directly after the failing operator, but as the first operator of the
+    # branches of a tee_map (its source is then the tee_map's connectable proxy), or behind a
+    # plain RxPY-style pass-through
+    for _ in range(60 if thorough else 16):
+        fail = rng.choice([G.op_map('failIf', 2), G.op_filter('failIfP', 2), G.op_scan('failAdd', I(0), c=2)])
+        h1 = rng.choice([G.op_simple('ignore'), {'op': 'errmap', 'f': fn('errconst', 77)}, {'op': 'errmap', 'f': fn('errcode')}])
+        h2 = rng.choice([G.op_simple('ignore'), {'op': 'errmap', 'f': fn('errconst', 78)}])
+        b1 = [h1] + rng.choice([[], [G.op_map('addc', 1)], [{'op': 'count', 'reduce': False}]])
+        b2 = [h2] + rng.choice([[], [G.op_simple('lag', n=1)]])
+        pipe = [fail, G.op_tee(rng.choice(['merge', 'zip', 'combine_latest']), [b1, b2])]
+        lts = [(idx, G.ints([rng.choice([1, 2, 3]) for _ in range(rng.randint(0, 6))])) for idx in rng.sample([0, 1, 5], 2)]
+        cases.append(mux_case(pipe, G.schedule(rng, lts)))
     # rs.ops.multiplex (no store): stateless pipelines with handlers, and unhandled errors
     for _ in range(60 if thorough else 16):
         fail = rng.choice([G.op_map('failIf', 2), G.op_filter('failIfP', 2)])
